@@ -451,6 +451,40 @@ func init() {
 			}
 		})
 	}
+	// a graceful node stop reaches every process, also one that traps exits and was spawned (unlinked) by another process
+	c10Scenario("node-stop-trapping-grandchild", 1, 2, func(w *World, t *tree) {
+		w.spawnProbe("PARENT", probeCfg{}, gen.ProcessOptions{})
+		w.Do("PARENT", func(p *probe) error {
+			r := &rec{name: "TRAPPER"}
+			w.recs["TRAPPER"] = r
+			pid, err := p.Spawn(func() gen.ProcessBehavior { return &probe{} }, gen.ProcessOptions{}, probeCfg{rec: r, trap: true})
+			if err != nil {
+				panic(err)
+			}
+			w.pids["TRAPPER"] = pid
+			return nil
+		})
+		ret := false
+		var atReturn []string
+		w.ex.Thread("A", func() {
+			w.n.Stop()
+			for _, n := range []string{"PARENT", "TRAPPER"} {
+				if _, ok := w.n.processes.Load(w.pids[n]); ok {
+					atReturn = append(atReturn, n)
+				}
+			}
+			ret = true
+		})
+		w.Check = func() {
+			if !ret {
+				w.ex.Fail("stop-hangs", "Node.Stop did not return (a process that traps exit signals and whose parent is another process is still running: %v)", w.alive("TRAPPER"))
+				return
+			}
+			if len(atReturn) > 0 {
+				w.ex.Fail("stop-ok-process-running", "Node.Stop returned while %v had not terminated", atReturn)
+			}
+		}
+	})
 }
 
 // application whose members are a supervisor and a worker of a tree
